@@ -9,6 +9,7 @@ import (
 	"math/big"
 	"os"
 	"strconv"
+	"sync"
 	"time"
 )
 
@@ -101,6 +102,25 @@ func Assert(c bool, msg string) {
 }
 
 func Note(key string, v any) {}
+
+// Interleave runs the given functions as logical threads.  Under the symbolic interpreter every interleaving at the
+// granularity of synchronisation operations (mutex Lock/Unlock/RLock/RUnlock, atomic adds) is explored.  Natively the
+// functions run as real goroutines released together; a schedule-dependent counterexample is replayed by repeating
+// the whole harness (VERIF_REPEAT) until the assertion fails once.
+func Interleave(fs ...func()) {
+	var wg sync.WaitGroup
+	start := make(chan struct{})
+	for _, f := range fs {
+		wg.Add(1)
+		go func(f func()) {
+			defer wg.Done()
+			<-start
+			f()
+		}(f)
+	}
+	close(start)
+	wg.Wait()
+}
 
 // StepBudget(n, msg): under the symbolic interpreter the code that follows may execute at most n more SSA instructions
 // on this path, otherwise the path is reported as violating msg (a termination bound); StepBudget(0, "") lifts it.
